@@ -25,6 +25,19 @@ type HRow struct {
 	C         int64
 	S         string
 	DeletedAt gorm.DeletedAt
+	Pets      []HPet
+}
+
+type HPet struct {
+	ID     int64
+	HRowID int64
+	Name   string
+	Toy    HToy
+}
+
+type HToy struct {
+	ID     int64
+	HPetID int64
 }
 
 type ctxKey struct{}
@@ -60,6 +73,7 @@ type env struct {
 	db   *gorm.DB
 	rec  *recdrv.Rec
 	real bool
+	sql  interface{ Close() error }
 }
 
 func newEnv(real bool) (*env, error) {
@@ -68,7 +82,7 @@ func newEnv(real bool) (*env, error) {
 		return nil, err
 	}
 	sqldb.SetMaxOpenConns(1)
-	if err := db.AutoMigrate(&HRow{}); err != nil {
+	if err := db.AutoMigrate(&HRow{}, &HPet{}, &HToy{}); err != nil {
 		return nil, err
 	}
 	if !real {
@@ -78,7 +92,7 @@ func newEnv(real bool) (*env, error) {
 		sqldb.Exec("INSERT INTO h_rows(id,a,b,c,s) VALUES (1,1,1,1,'x'),(2,2,2,2,'y'),(3,3,3,3,'z')")
 		sqldb.Exec("CREATE TABLE t2(id integer, v integer)")
 	}
-	return &env{db: db, rec: rec, real: real}, nil
+	return &env{db: db, rec: rec, real: real, sql: sqldb}, nil
 }
 
 func apply(tx *gorm.DB, c Call) *gorm.DB {
@@ -128,6 +142,12 @@ func apply(tx *gorm.DB, c Call) *gorm.DB {
 		return tx.Attrs(HRow{B: n + 100})
 	case "Assign":
 		return tx.Assign(map[string]interface{}{"c": n + 200})
+	case "SelectRel":
+		return tx.Select("Pets", "Pets.Toy")
+	case "SelectAssoc":
+		return tx.Select(clause.Associations)
+	case "PreloadPets":
+		return tx.Preload("Pets")
 	case "Preload":
 		return tx
 	// how a chain value becomes a reusable handle again
@@ -201,6 +221,9 @@ func (e *env) finish(tx *gorm.DB, f string, hasModel bool) string {
 		extra = fmt.Sprintf("%d/%d/%d/%d", out.ID, out.A, out.B, out.C)
 	case "Create":
 		res = tx.Create(&HRow{A: 7})
+	case "DeleteRec":
+		// a record with a key: selected associations are deleted first
+		res = tx.Delete(&HRow{ID: 3})
 	default:
 		panic("finish " + f)
 	}
@@ -241,6 +264,7 @@ func isolated(real bool, path []Call, f string) (string, error) {
 	if err != nil {
 		return "", err
 	}
+	defer e.sql.Close()
 	tx := e.db
 	for _, c := range path {
 		tx = apply(tx, c)
@@ -267,6 +291,7 @@ func run(caseNo int, real bool, ops []Op) (hx.M, error) {
 	if err != nil {
 		return nil, err
 	}
+	defer e.sql.Close()
 	vals := map[int]*gorm.DB{1: e.db}
 	paths := map[int][]Call{1: {}}
 	calls := 0
@@ -352,9 +377,9 @@ func replay(args []string) error {
 }
 
 var methods = []string{"Where", "WhereMap", "Or", "Not", "Select", "Omit", "Order", "Limit", "Offset", "Group", "Joins", "Distinct", "Unscoped",
-	"Scopes", "Returning", "Returning", "OrderByC", "Locking", "OnConflict", "Table", "Model", "Attrs", "Assign"}
+	"Scopes", "Returning", "Returning", "OrderByC", "Locking", "OnConflict", "Table", "Model", "Attrs", "Assign", "SelectRel", "SelectAssoc", "PreloadPets"}
 var hows = []string{"Session", "WithContext", "Debug", "SessionNewDB", "SessionCtx", "SessionNewDBCtx", "SessionSkipHooks", "SessionNewDBSkipHooks", "SessionNewDBPrepare", "SessionFull"}
-var finishersDry = []string{"Find", "First", "Take", "Count", "Pluck", "Update", "Delete", "Scan", "FirstOrInit", "Create"}
+var finishersDry = []string{"Find", "First", "Take", "Count", "Pluck", "Update", "Delete", "Scan", "FirstOrInit", "Create", "DeleteRec"}
 var finishersReal = []string{"Find", "First", "Count", "Pluck", "Scan", "FirstOrInit"}
 
 // random: histories of 20-60 operations.
@@ -384,13 +409,46 @@ func random(args []string) error {
 				return focus
 			}
 			m := methods[r.Intn(len(methods))]
-			if real && (m == "Joins" || m == "Group" || m == "Locking" || m == "Returning" || m == "Table" || m == "Select" || m == "Distinct" || m == "Omit") {
+			if real && (m == "Joins" || m == "Group" || m == "Locking" || m == "Returning" || m == "Table" || m == "Select" || m == "Distinct" || m == "Omit" || m == "SelectRel" || m == "SelectAssoc") {
 				return "Where"
 			}
 			return m
 		}
-		if real && (focus == "Joins" || focus == "Group" || focus == "Locking" || focus == "Returning" || focus == "Table" || focus == "Select" || focus == "Distinct" || focus == "Omit") {
+		if real && (focus == "Joins" || focus == "Group" || focus == "Locking" || focus == "Returning" || focus == "Table" || focus == "Select" || focus == "Distinct" || focus == "Omit" || focus == "SelectRel" || focus == "SelectAssoc") {
 			focus = "Or"
+		}
+		if i%4 == 3 {
+			// capacity pattern: the same appending method k times (separate calls leave spare capacity in
+			// the slice behind it), a new handle, then sibling chains that each append once more before
+			// any of them is finished
+			m := pick()
+			ops = append(ops, Op{Op: "derive", From: 1, To: next, M: m})
+			cur := next
+			next++
+			for k := r.Intn(5); k > 0; k-- {
+				ops = append(ops, Op{Op: "extend", From: cur, To: next, M: m})
+				cur = next
+				next++
+			}
+			ops = append(ops, Op{Op: "session", From: cur, To: next, M: hows[r.Intn(3)]})
+			h := next
+			next++
+			var sibs []int
+			for k := 2 + r.Intn(2); k > 0; k-- {
+				ops = append(ops, Op{Op: "derive", From: h, To: next, M: m})
+				sibs = append(sibs, next)
+				next++
+			}
+			r.Shuffle(len(sibs), func(a, b int) { sibs[a], sibs[b] = sibs[b], sibs[a] })
+			fl := finishersDry
+			if real {
+				fl = finishersReal
+			}
+			for _, x := range sibs {
+				ops = append(ops, Op{Op: "finish", From: x, M: fl[r.Intn(len(fl))]})
+			}
+			ops = append(ops, Op{Op: "finish", From: h, M: fl[r.Intn(len(fl))]})
+			ln = 0
 		}
 		for k := 0; k < ln; k++ {
 			var reus, chains []int
